@@ -109,3 +109,22 @@ package openapi3filter
 //@   ensures @C06 [error-carries-nothing] result.2 != nil ==> result.0 == "" && result.1 == nil
 //@   option safety-tags C10
 //@   tag C06
+
+// ---- C13: the security check reads the body to hand each authentication callback a fresh copy; when
+// it accepts, what it leaves in the request is a reader obtained after the read (from the request's
+// GetBody or from the one it installs) - never the exhausted original.
+//@ func validateSecurityRequirement$1
+//@   modifies rdContent
+//@   ensures result.1 == nil && result.0 != nil && !old(allocated(ptr(result.0))) && rdContent[ptr(result.0)] == bytes(data)
+//@   ensures forall r ref :: old(allocated(r)) ==> rdContent[r] == old(rdContent)[r]
+//@   tag C13
+//@ func validateSecurityRequirement$2
+//@   modifies rdContent
+//@   ensures result.1 == nil && result.0 != nil && !old(allocated(ptr(result.0))) && rdContent[ptr(result.0)] == bytes(data)
+//@   ensures forall r ref :: old(allocated(r)) ==> rdContent[r] == old(rdContent)[r]
+//@   tag C13
+//@ extend func validateSecurityRequirement
+//@   assuming @C13 input.Request != nil
+//@   loop 1 invariant @C13 old(hasBody(input)) ==> data != nil
+//@   ensures @C13 [accepted-request-carries-a-new-body] result == nil && old(hasBody(input)) ==> input.Request.Body != nil && (let b := ptr(input.Request.Body) in !old(allocated(b)))
+//@   tag C13
